@@ -1096,6 +1096,9 @@ class HelperFlows(Suite):
 
     # the handler outcome -> the generated builder call_tool uses for it (types/tools.py ToolRegistry.call_tool)
     def model_line(self, case):
+        if case["flow"] == "complete-path":
+            return {"m": "schema", "op": "enums", "j": schema_h.enc([[e["current"], e["allowed"], bool(e.get("case_sensitive"))]
+                                                                    for e in case.get("enums", [])])}
         if case["flow"] != "registry":
             return None
         k, v = case["ret"]["kind"], case["ret"]["value"]
@@ -1123,11 +1126,18 @@ class HelperFlows(Suite):
     def model_obs(self, out, case):
         if "driver_error" in out or out.get("untranslated") or not out.get("ok"):
             return {"skip": out.get("driver_error") or out.get("why") or "untranslated"}
+        if "enums" in out:
+            return {"enums": out["enums"]}
         return {"dump": schema_h.dec(out["dump"])}
 
     def compare(self, case, o, m):
         if "skip" in m:
             return None if m["skip"] == "untranslated" else "model: " + str(m["skip"])
+        if "enums" in m:
+            for side in ("fallback", "pydantic"):
+                if o[side].get("ok") and o[side].get("enums") != m["enums"]:
+                    return f"complete_enum_value differs from the model ({side}): {o[side].get('enums')} vs {m['enums']}"[:300]
+            return None
         for side in ("fallback", "pydantic"):
             r = o[side]
             if r.get("ok") and "propagated" not in r and not schema_h.same(r.get("emitted"), m["dump"]):
